@@ -1,7 +1,7 @@
 #!/bin/bash
 # tools_batch.sh <prop> <round>  : try both seeds of /tmp/wt-<prop>-<round>
 P=$1; R=$2
-for k in 1 2; do
+for k in 1 2 3; do
   d=/tmp/wt-$P-$R/_out/$k
   [ -d $d ] || continue
   echo "=================== $P-$R$k"
